@@ -115,9 +115,10 @@ def _prune_cache(keep):
     except FileNotFoundError:
         return
     ents.sort(key=lambda d: os.path.getmtime(d))
+    # never remove what a concurrently running check may still be using: only entries untouched for 3 hours go
     while len(ents) > 10:
         d = ents.pop(0)
-        if d != keep:
+        if d != keep and time.time() - os.path.getmtime(d) > 3 * 3600:
             shutil.rmtree(d, ignore_errors=True)
 
 
@@ -208,7 +209,8 @@ def build_harness(variant, name, sources, extra_flags=""):
         if os.path.exists(exe):
             return exe
         for old in glob.glob(os.path.join(libd, name + "-*")):
-            os.unlink(old)
+            if time.time() - os.path.getmtime(old) > 3 * 3600:      # an older harness may still be running in another check
+                os.unlink(old)
         t0 = time.time()
         objs = []
         procs = []
